@@ -15,9 +15,8 @@ import os
 import sys
 from typing import Any
 
-# mutation testing of THIS check only: VERIF_C04_SRC=<private copy of /repo/src> (never /repo itself)
-if os.environ.get("VERIF_C04_SRC"):
-    sys.path.insert(0, os.environ["VERIF_C04_SRC"])
+# mutation experiments: VERIF_REPO_ROOT=<scratch checkout> ./check C04 (framework.REPO, tables.SRC and
+# PYTHONPATH follow it); nothing in this file names /repo.
 
 from framework import Check, cbool, clist, copt, cpair, cstr, load_corpus  # noqa: E402
 from pipeline import base_spec, drive, generate  # noqa: E402
